@@ -437,6 +437,7 @@ def gen_history(ctx, r, s, length, profile):
     pending = []      # (result index, content id at check time) of checks not yet followed by did_upload
     dir_results = []  # result indices of check_dir
     dir_pool = []     # item lists used so far
+    created_pool = []  # item lists recorded with did_create
 
     def new_content():
         next_content[0] += 1
@@ -481,7 +482,25 @@ def gen_history(ctx, r, s, length, profile):
     def snapshot_dir():
         """what BackerUpper.upload_directory/check_backupdb_directory do"""
         k = r.random()
-        if dir_pool and k < 0.45:
+        big = [it for it in created_pool if len(it) >= 2]
+        if big and k < 0.15:
+            # two adjacent entries (in sorted order) of a RECORDED dict folded into one: equal hash input under
+            # any encoding that is not prefix-free in both fields
+            srt = sorted(r.choice(big), key=lambda e: e[0].encode("utf-8"))
+            j = r.randrange(len(srt) - 1)
+            (n0, c0), (n1, c1) = srt[j], srt[j + 1]
+            n0b, n1b = n0.encode("utf-8"), n1.encode("utf-8")
+            items = list(srt)
+            try:
+                folded = r.choice([
+                    (n0, c0 + ns(n1b) + ns(c1)), (n0, c0 + ns(n1b) + c1), (n0, c0 + n1b + c1), (n0, c0 + n1b + ns(c1)),
+                    ((n0b + ns(c0) + n1b).decode("utf-8"), c1), ((n0b + c0 + n1b).decode("utf-8"), c1),
+                    ((n0b + c0 + ns(n1b)).decode("utf-8"), c1),
+                ])
+                items = srt[:j] + [folded] + srt[j + 2:]
+            except UnicodeDecodeError:
+                pass
+        elif dir_pool and k < 0.5:
             items = list(r.choice(dir_pool))
             m = r.random()
             if m < 0.3:
@@ -498,22 +517,6 @@ def gen_history(ctx, r, s, length, profile):
             elif m < 0.8 and len(items) >= 2:
                 (n0, c0), (n1, c1) = items[0], items[1]   # names swap caps
                 items[0], items[1] = (n0, c1), (n1, c0)
-            elif len(items) >= 2:
-                # two adjacent entries (in sorted order) folded into one: equal hash input under any encoding that is
-                # not prefix-free in both fields
-                srt = sorted(items, key=lambda e: e[0].encode("utf-8"))
-                j = r.randrange(len(srt) - 1)
-                (n0, c0), (n1, c1) = srt[j], srt[j + 1]
-                n1b = n1.encode("utf-8")
-                try:
-                    folded = r.choice([
-                        (n0, c0 + ns(n1b) + ns(c1)), (n0, c0 + ns(n1b) + c1), (n0, c0 + n1b + c1), (n0, c0 + n1b + ns(c1)),
-                        ((n0.encode("utf-8") + ns(c0) + n1b).decode("utf-8"), c1), ((n0.encode("utf-8") + c0 + n1b).decode("utf-8"), c1),
-                        ((n0.encode("utf-8") + c0 + ns(n1b)).decode("utf-8"), c1),
-                    ])
-                    items = srt[:j] + [folded] + srt[j + 2:]
-                except UnicodeDecodeError:
-                    pass
         else:
             nn = r.choice([0, 1, 2, 2, 3, 4])
             names = r.sample(NAMES, nn)
@@ -535,6 +538,7 @@ def gen_history(ctx, r, s, length, profile):
             if r.random() < 0.9:
                 ndirs[0] += 1
                 s.did_create(ix, dircap_for(ndirs[0]), tick())
+                created_pool.append(tuple(items))
         elif info["should_check"]:
             if r.random() < 0.6:
                 s.did_check_healthy_dir(ix, tick())
@@ -544,11 +548,11 @@ def gen_history(ctx, r, s, length, profile):
 
     weights = {
         "files": [("create", 3), ("backup", 9), ("backup_all", 2), ("change_size", 3), ("change_same_size", 2), ("touch_mtime", 2),
-                  ("touch_ctime", 2), ("restore_stat", 1), ("rename", 2), ("delete", 1), ("late_upload", 2), ("no_ts", 1),
+                  ("touch_ctime", 2), ("restore_stat", 1), ("swap_times", 2), ("rename", 2), ("delete", 1), ("late_upload", 2), ("no_ts", 1),
                   ("raw", 1), ("reopen", 1), ("dir", 1)],
         "dirs": [("create", 1), ("backup", 2), ("dir", 9), ("raw_dir", 1), ("reopen", 1), ("change_size", 1)],
         "mixed": [("create", 3), ("backup", 7), ("backup_all", 1), ("change_size", 2), ("change_same_size", 1), ("touch_mtime", 1),
-                  ("touch_ctime", 1), ("restore_stat", 1), ("rename", 1), ("late_upload", 1), ("no_ts", 1), ("raw", 1),
+                  ("touch_ctime", 1), ("restore_stat", 1), ("swap_times", 1), ("rename", 1), ("late_upload", 1), ("no_ts", 1), ("raw", 1),
                   ("reopen", 1), ("dir", 6), ("raw_dir", 1)],
     }[profile]
     bag = [k for k, w in weights for _ in range(w)]
@@ -590,6 +594,10 @@ def gen_history(ctx, r, s, length, profile):
             p = r.choice(paths)
             if p in old_stats:
                 files[p] = old_stats.pop(p)[:3] + [new_content()]    # same stat as before, other content
+        elif k == "swap_times":
+            p = r.choice(paths)
+            old_stats[p] = list(files[p])
+            files[p] = [files[p][0], files[p][2], files[p][1], new_content()]    # mtime and ctime exchanged, other content
         elif k == "rename":
             p = r.choice(paths)
             q = fresh_path()
@@ -744,7 +752,7 @@ def run(ctx):
         sessions.append(("fixed", j, s))
         ctx.case(("fixed", j) if "file-reuse" in s.flags or "dir-reuse" in s.flags else None, kind="fixed")
 
-    n = ctx.n(100, 1500)
+    n = ctx.n(100, 800)
     for i in range(n):
         kind = ["mixed", "files", "dirs", "mixed"][i % 4]
         r0 = ctx.rng("len", i)
@@ -765,9 +773,13 @@ def run(ctx):
     real_file_histories(ctx, scratch, sessions, terms)
 
     bad = ctx.coq_check(IMPORTS, terms, tag="c42hist", shard=25)
-    for ix in bad:
+    for nth, ix in enumerate(bad):
         kind, i, s = sessions[ix]
-        # localise: first prefix on which the observations differ (none: the table dump differs)
+        if nth >= 2:
+            ctx.mismatch("model-vs-backupdb", "model and BackupDB_v2 differ on history %s-%d" % (kind, i),
+                         case={"history": s.history, "kind": kind, "index": i}, correspondence="backupdb-histories-vs-model")
+            continue
+        # localise (first two only): first prefix on which the observations differ (none: the table dump differs)
         pre = s.prefix_terms()
         pbad = ctx.coq_check(IMPORTS, pre, tag="c42loc", shard=60) if pre else []
         first = pbad[0] if pbad else None
